@@ -21,16 +21,17 @@ import (
 type Op struct {
 	Op     string   `json:"op"`
 	Client string   `json:"client"`
-	Auth   string   `json:"auth"`          // "ok" | "bad" | "none"
-	RType  string   `json:"rtype"`         // authorize: response type combination
-	Scopes []string `json:"scopes"`        // requested scopes
-	Grant  []string `json:"grant"`         // scopes the resource owner grants
-	GAud   []string `json:"gaud"`          // audiences the resource owner grants (["*"] = all requested ones)
-	Aud    []string `json:"aud"`           // requested (= granted) audience
-	Redir  string   `json:"redir"`         // authorize: "sent"|"omit"; redeem: "same"|"absent"|"diff"|"enc"
-	Pkce   string   `json:"pkce"`          // authorize: "none"|"S256"|"plain"|"plain_nm"|"plain_short"
-	Ill    string   `json:"ill,omitempty"` // authorize with pkce *_ill: which reserved character the verifier contains
-	Ver    string   `json:"ver"`           // redeem: "none"|"right"|"wrong"|"short"|"long"|"illegal"|"other"
+	Auth   string   `json:"auth"`            // "ok" | "bad" | "none"
+	RType  string   `json:"rtype"`           // authorize: response type combination
+	Scopes []string `json:"scopes"`          // requested scopes
+	Grant  []string `json:"grant"`           // scopes the resource owner grants
+	GAud   []string `json:"gaud"`            // audiences the resource owner grants (["*"] = all requested ones)
+	Aud    []string `json:"aud"`             // requested (= granted) audience
+	Redir  string   `json:"redir"`           // authorize: "sent"|"omit"; redeem: "same"|"absent"|"diff"|"enc"
+	Pkce   string   `json:"pkce"`            // authorize: "none"|"S256"|"plain"|"plain_nm"|"plain_short"
+	Ill    string   `json:"ill,omitempty"`   // authorize with pkce *_ill: which reserved character the verifier contains
+	Forge  string   `json:"forge,omitempty"` // devpoll: the device code is rebuilt from its signature ("sig_only" | "sig_junk")
+	Ver    string   `json:"ver"`             // redeem: "none"|"right"|"wrong"|"short"|"long"|"illegal"|"other"
 	Code   int      `json:"code"`
 	Tok    int      `json:"tok"`
 	Kind   string   `json:"kind"` // "at"|"rt"|"unk"
@@ -876,6 +877,16 @@ func (w *World) doDevPoll(p int, op Op) Obs {
 	f := url.Values{}
 	f.Set("grant_type", "urn:ietf:params:oauth:grant-type:device_code")
 	f.Set("device_code", w.tok("dev", op.Dev))
+	if op.Forge != "" { // rebuilt from the signature alone (what the store holds)
+		code := w.tok("dev", op.Dev)
+		sig := code[strings.LastIndex(code, ".")+1:]
+		switch op.Forge {
+		case "sig_only":
+			f.Set("device_code", "ory_dc_."+sig)
+		default:
+			f.Set("device_code", "ory_dc_!!!!."+sig)
+		}
+	}
 	if op.Auth == "hdr_victim" { // the presenting public client in the header, the client that started the flow in the body
 		r.SetBasicAuth(url.QueryEscape(op.Client), "")
 		f.Set("client_id", w.DevOwner[op.Dev])
